@@ -157,3 +157,95 @@ def save_state(h):
         h.check('periodic-dump-exactly-at-multiples-of-the-frequency', 'n == (1 if g % k == 0 else 0)', n=n, g=g, k=k)
     else:
         h.check('no-dump-without-a-frequency', 'n == 0', n=n)
+
+
+@contract('C06/AbstractSolver.SaveSolver', ['C06'], A + '.SaveSolver', native=False)
+def save_solver(h):
+    """SaveSolver(filename): the solver ITSELF (not a copy, not a part of it) is handed to dill.dump once, with the file opened
+    for binary writing under the name given -- or, without a name, under the registered restart file -- the name is
+    remembered as the restart file, and the file is closed whatever dill does; nothing else of the solver changes before
+    the dump (pickling itself is dill's: an assumed contract)"""
+    if not h.is_sym():
+        h.unsupported('symbolic only')
+    given = h.choice('filename', ['given', 'None-with-registered-file'])
+    fails = h.choice('dill_raises', [False, True])
+    pop = h.clist([h.vec('member0', 2)])
+    infos = []
+    mon = h.obj(None, info=h.fn('MONITOR_INFO', sym=lambda H, I, a, k: infos.append(a[0])))
+    s = h.obj(A, population=pop, _stepmon=mon, _state=('registered.pkl' if given != 'given' else None), _live=h.bool('live'))
+    dumps = []
+
+    def dump(I, c, a, k):
+        cell = I.st.heap[a[0]]
+        dumps.append((a[0], a[1], cell.get('_state'), cell.get('population'), len(infos)))
+        if fails:
+            from pyvc.values import PyExc
+            raise PyExc('PicklingError', 'cannot pickle')
+        return None
+    import pyvc.lib as L
+    L._LIB['dill.dump'] = L.Builtin('dill.dump (assumed: writes a faithful pickle of its first argument to the file)', lambda I, a, k: dump(I, None, a, k))
+    try:
+        r, exc = h.call_raises(h.getattr(s, 'SaveSolver'), *(['run.pkl'] if given == 'given' else []))
+    finally:
+        L._LIB.pop('dill.dump', None)
+    name = 'run.pkl' if given == 'given' else 'registered.pkl'
+    files = h.st.ghost.get('files', [])
+    h.check('the-solver-itself-is-dumped-once', 'ok', ok=(len(dumps) == 1 and dumps[0][0] is s and dumps[0][3] is pop))
+    opened = [f for f in files if f[0] == 'open']
+    h.check('to-the-named-file-opened-for-binary-writing', 'ok',
+            ok=(len(opened) == 1 and opened[0][1] == name and opened[0][2] == 'wb' and len(dumps) == 1 and dumps[0][1] is opened[0][3]))
+    h.check('the-file-is-closed-whatever-dill-does', 'ok', ok=(len([f for f in files if f[0] == 'close']) == 1))
+    h.check('the-name-is-remembered-as-the-restart-file-also-in-the-dumped-state', 'ok',
+            ok=(h.field(s, '_state') == name and len(dumps) == 1 and dumps[0][2] == name))
+    h.check('dill-failure-is-not-swallowed', 'ok', ok=((exc is not None) == fails))
+
+
+@contract('C06/solvers.LoadSolver', ['C06', 'C04'], 'mystic/solvers.py::LoadSolver', native=False)
+def load_solver(h):
+    """LoadSolver(filename, **overrides): the file is opened for binary reading and closed again, dill.load is asked once, a
+    FRESH solver of the pickled solver's own class and dimension is made and handed the pickled state through
+    __load_state (whose contract is above) together with the caller's overrides, the file is remembered as the restart
+    file and the load is logged; without a file name nothing is loaded"""
+    if not h.is_sym():
+        h.unsupported('symbolic only')
+    kind = h.choice('pickled_solver_class', ['NelderMeadSimplexSolver', 'DifferentialEvolutionSolver2'])
+    named = h.choice('filename', ['given', 'only-as-_state-override', 'None'])
+    src = h.obj(None, _type=kind, nDim=3, population=h.clist([h.vec('p', 3)]))
+    made, loads, infos = [], [], []
+
+    def init(I, c, a, k):
+        made.append((a[0], list(a[1:]), dict(k)))
+        I.st.heap[a[0]]['_stepmon'] = I.st.alloc('obj', {'info': h.fn('MONITOR_INFO', sym=lambda H, I_, aa, kk: infos.append(aa[0]))})
+        return None
+
+    def load_state(I, c, a, k):
+        loads.append((a[0], list(a[1:]), dict(k)))
+        return None
+    import pyvc.lib as L
+    reads = []
+    L._LIB['dill.load'] = L.Builtin('dill.load (assumed: the object pickled into the file)', lambda I, a, k: (reads.append(a[0]), src)[1])
+    cls_of = {'NelderMeadSimplexSolver': 'mystic/scipy_optimize.py', 'DifferentialEvolutionSolver2': 'mystic/differential_evolution.py'}
+    h.set_summaries({(cls_of[kind], kind + '.__init__'): init,
+                     ('mystic/abstract_solver.py', 'AbstractSolver.__load_state'): load_state})
+    try:
+        if named == 'given':
+            r = h.call(h.get('mystic/solvers.py::LoadSolver'), 'run.pkl', nDim=3)
+        elif named == 'None':
+            r = h.call(h.get('mystic/solvers.py::LoadSolver'))
+        else:
+            r = h.call(h.get('mystic/solvers.py::LoadSolver'), _state='run.pkl')
+    finally:
+        L._LIB.pop('dill.load', None)
+    files = h.st.ghost.get('files', [])
+    if named == 'None':
+        h.check('nothing-loaded-without-a-file', 'ok', ok=(r is None and not files and not reads))
+        return
+    opened, closed = [f for f in files if f[0] == 'open'], [f for f in files if f[0] == 'close']
+    h.check('file-opened-for-binary-reading-read-once-and-closed', 'ok',
+            ok=(len(opened) == 1 and opened[0][1] == 'run.pkl' and opened[0][2] == 'rb' and len(closed) == 1 and len(reads) == 1 and reads[0] is opened[0][3]))
+    ok = len(made) == 1 and r is made[0][0] and getattr(r, 'cls', None) is not None and r.cls.name == kind and made[0][1] == [3] and r is not src
+    h.check('a-fresh-solver-of-the-pickled-class-and-dimension', 'ok', ok=ok)
+    want_kw = {'nDim': 3} if named == 'given' else {'_state': 'run.pkl'}
+    h.check('pickled-state-and-overrides-handed-to-__load_state-of-the-new-solver', 'ok',
+            ok=(len(loads) == 1 and loads[0][0] is r and len(loads[0][1]) == 1 and loads[0][1][0] is src and loads[0][2] == want_kw))
+    h.check('file-remembered-as-the-restart-file-and-the-load-logged', 'ok', ok=(h.field(r, '_state') == 'run.pkl' and len(infos) == 1))
